@@ -3,8 +3,8 @@
 From Coq Require Import List ZArith NArith Bool Lia.
 From RG Require Import Base.Str Base.Num Model.Recipe Model.Compiler Spec.Valid
   Proofs.RecipeInd Proofs.NodeEqv Proofs.RecipeValid Proofs.CompilerExpand
-  Proofs.CompilerInvSize Proofs.CompilerInvNames Proofs.CompilerInvDefs
-  Proofs.CompilerInvPass1 Proofs.CompilerInvPass2.
+  Proofs.CompilerInvSize Proofs.CompilerInvNames Proofs.CompilerInvDefs Proofs.CompilerInvSub
+  Proofs.CompilerInvPass1 Proofs.CompilerInvPass1U Proofs.CompilerInvPass2.
 Import ListNotations.
 
 Section Main.
@@ -23,16 +23,29 @@ Section Main.
       exists j, e. split; [exact Hj|]. split; [exact Hkey|]. split; [exact Hix|]. intro. apply Hs. lia.
   Qed.
 
-  Lemma fold_step_inv2 i bs t : Inv2 lower i bs t ->
+  (** The extra invariants for name uniqueness. *)
+  Definition Inv3 (i : nat) (bs : list (list node)) (t : table) : Prop :=
+    (forall j ej, nth_error t j = Some ej -> (i <= j)%nat -> Single ej (concat bs)) /\
+    Uniq lower (concat bs).
+
+  Definition Inv23 i bs t : Prop := Inv2 lower i bs t /\ Inv3 i bs t.
+
+  Lemma inv23_weaken i bs t : Inv23 i bs t -> Inv23 (S i) bs t.
+  Proof.
+    intros [I [HS HU]]. split; [now apply inv2_weaken|]. split; [|exact HU].
+    intros j ej Hj Hle. apply (HS j ej Hj). lia.
+  Qed.
+
+  Lemma fold_step_inv2 i bs t : Inv23 i bs t ->
     match fold_step convert tol lower i bs t with
-    | P2Ok bs' t' => Inv2 lower (S i) bs' t'
+    | P2Ok bs' t' => Inv23 (S i) bs' t'
     | P2Crash c => c = NumericOverflow
     end.
   Proof.
-    intro I. unfold fold_step.
-    destruct (nth_error t i) as [e|] eqn:Hi; [|now apply inv2_weaken].
+    intro I23. pose proof I23 as [I [HS HU]]. unfold fold_step.
+    destruct (nth_error t i) as [e|] eqn:Hi; [|now apply inv23_weaken].
     destruct (can_be_inlined convert tol lower e) as [[|]|] eqn:Ec;
-      [|now apply inv2_weaken|reflexivity].
+      [|now apply inv23_weaken|reflexivity].
     destruct (can_be_inlined_shape _ _ _ e Ec) as (body & nm & sh & rs & ri & amt & blk & Hs & Hr).
     assert (Hrs : rs = SubRecipe body [nm] sh /\ ri = 0%nat).
     { destruct (i2_C _ _ _ _ I i e Hi (le_n _) (Reference rs ri amt) blk) as (a & Ha);
@@ -45,14 +58,20 @@ Section Main.
     assert (Hnew : new = body \/ new = SubRecipe body [nm] sh).
     { unfold new. destruct (e_unwrap e); [left | right]; reflexivity. }
     destruct (remove_ok lower i bs t e body nm sh amt new Hnew I Hi Hs) as (pre & post & Hblk & Hup).
-    pose proof (step_inv2 lower i bs t e body nm sh amt blk new Hnew I Hi Hs Hr pre post Hblk) as Hfin.
+    assert (Hfin : Inv23 (S i)
+              (map (map (substitute (Reference (SubRecipe body [nm] sh) 0 amt) new)) (bs1_of bs e pre post))
+              (map (entry_substitute (Reference (SubRecipe body [nm] sh) 0 amt) new) t)).
+    { split; [exact (step_inv2 lower i bs t e body nm sh amt blk new Hnew I Hi Hs Hr pre post Hblk)|].
+      split.
+      - exact (step_Single lower i bs t e body nm sh amt blk new Hnew I Hi Hs Hr pre post Hblk HS).
+      - exact (step_Uniq lower i bs t e body nm sh amt blk new Hnew I Hi Hs Hr pre post Hblk HS HU). }
     destruct e as [k db sub idx refs uw]. simpl in *. subst sub refs.
     rewrite Hblk, Hup. exact Hfin.
   Qed.
 
-  Lemma pass2_from_inv2 : forall n i bs t, Inv2 lower i bs t ->
+  Lemma pass2_from_inv2 : forall n i bs t, Inv23 i bs t ->
     match pass2_from convert tol lower i n bs t with
-    | P2Ok bs' t' => Inv2 lower (i + n) bs' t'
+    | P2Ok bs' t' => Inv23 (i + n) bs' t'
     | P2Crash c => c = NumericOverflow
     end.
   Proof.
@@ -63,20 +82,27 @@ Section Main.
       specialize (IH (S i) bs1 t1 H). rewrite Nat.add_succ_r. exact IH.
   Qed.
 
+  Lemma pass1_inv23 p bs t : pass1 lower p = P1Ok bs t -> Inv23 0 bs t.
+  Proof.
+    intro H. split; [now apply (pass1_inv2 lower p)|].
+    destruct (pass1_uniq lower p bs t H) as [HT HU]. split; [|exact HU].
+    intros j ej Hj _. apply TopBound_Single, HT. eapply nth_error_In; eauto.
+  Qed.
+
   (** What compilation ends with: either a compile error, or the explicit
-      numeric overflow, or blocks satisfying the pass-2 invariant. *)
+      numeric overflow, or blocks satisfying the pass-2 invariants. *)
   Lemma compile_ast_cases p :
     match compile_ast convert tol lower p with
-    | COk bs => exists t n, Inv2 lower n bs t
+    | COk bs => exists t n, Inv23 n bs t
     | CErr _ _ _ => True
     | CCrash c => c = NumericOverflow
     end.
   Proof.
     unfold compile_ast.
     destruct (pass1 lower p) as [bs t|k b o|c] eqn:E1; [|exact Logic.I|exfalso; eapply pass1_no_crash; eauto].
-    pose proof (pass2_from_inv2 (length t) 0 bs t (pass1_inv2 lower p bs t E1)) as H2.
+    pose proof (pass2_from_inv2 (length t) 0 bs t (pass1_inv23 p bs t E1)) as H2.
     unfold pass2. destruct (pass2_from convert tol lower 0 (length t) bs t) as [bs' t'|c]; [|exact H2].
-    rewrite (strict_implies_ok bs' (i2_V _ _ _ _ H2)). eauto.
+    rewrite (strict_implies_ok bs' (i2_V _ _ _ _ (proj1 H2))). eauto.
   Qed.
 
   Theorem compile_crash_only_overflow p c :
@@ -96,6 +122,15 @@ Section Main.
     compile_ast convert tol lower p = COk bs -> strictly_valid bs.
   Proof.
     intro H. pose proof (compile_ast_cases p) as Hc. rewrite H in Hc.
-    destruct Hc as (t & n & I). apply I.
+    destruct Hc as (t & n & I & _). apply I.
+  Qed.
+
+  (** The normalised output names of all sub recipe roots are pairwise
+      different (up to [==]): names are unique ignoring case and outer blanks. *)
+  Theorem compile_names_unique p bs :
+    compile_ast convert tol lower p = COk bs -> kd (root_keys lower bs).
+  Proof.
+    intro H. pose proof (compile_ast_cases p) as Hc. rewrite H in Hc.
+    destruct Hc as (t & n & I & _ & HU). eapply root_keys_kd; eauto.
   Qed.
 End Main.
